@@ -6,6 +6,7 @@
 -/
 import Djc.Proofs.Render
 import Djc.Proofs.Plain
+import Djc.Proofs.LeafSpec
 import Djc.Spec.Render
 namespace Djc.Props.C01
 open Djc.Tpl Djc.Render Djc.Proofs.Render
@@ -141,6 +142,38 @@ example :
                              .cls "p".toList, .text "T".toList]
       | .error _ => false) = true := by
   refine ⟨by decide, by decide, by decide +kernel⟩
+
+/-- **One component, django mode: the model of the code and the reading print the same** (the first step of
+`C01_full` across a component boundary).  A component tag with an empty body, no enclosing component, a plain
+template with usable names, data from the call; the template is rendered by the code in a snapshot of the caller's
+context extended by the data and the internal layer, by the reading in the caller's variables extended by the data
+and `component_vars` — and the deferred pipeline (placeholder, renderer, attribute pass, `component_post_render`)
+returns what the reading composes inline: the marker, then the template's tokens with the id on the root elements. -/
+theorem C01_full_partial_leaf_component_django (env : Env) (i : Nat) (name : Str) (kwargs : List (Str × Expr))
+    (dyn : Bool) (ctx : Ctx) (w : World) (e : Djc.SpecRender.SEnv) (s : Djc.SpecRender.SState) (d : CompDef)
+    (toks : List Tok) (st : Nat)
+    (hmode : env.isolated = false)
+    (hr : env.raiseAt = none) (hd : findDef env name = some d) (hdyn : isDynName name = false)
+    (hp : Djc.Proofs.Plain.plainL d.template = true) (ho : Djc.Proofs.Calm.okNamesL d.template = true)
+    (hsrc : d.data.all (fun kv => Djc.Proofs.Leaf.pureSrc kv.2) = true)
+    (hsteps : ¬ w.steps ≥ env.maxSteps) (hgcd : w.gcds < env.maxInst) (hext : isExtracting ctx = false)
+    (hpar : ∀ p, ctxGet ctx compKey ≠ some (.compRef p)) (hprov : w.provideCache = [])
+    (hf1 : alGet w.nextId w.ctxCache = none) (hf2 : alGet w.nextId w.rendererCache = none)
+    (hf3 : alGet w.nextId w.childAttrs = none) (hf4 : w.allRefIds.contains w.nextId = false)
+    (hc : Djc.Proofs.Plain.ctxFree (Djc.Proofs.Leaf.leafCtx ctx w.nextId (evalKwargs ctx kwargs) d) = true)
+    (hok : Djc.Proofs.Plain.pNodes env.maxSteps (i + 1) d.template
+      (Djc.Proofs.Leaf.leafCtx ctx w.nextId (evalKwargs ctx kwargs) d) (w.steps + 1) = (.ok toks, st))
+    (he : e.vars = ctx) (hsid : s.nextId = w.nextId) (hss : s.steps = w.steps) (hidle : ¬ s.nextId > env.maxInst)
+    (hc2 : Djc.Proofs.Plain.ctxFree (Djc.Proofs.LeafSpec.specVars false ctx w.nextId (evalKwargs ctx kwargs) d) = true) :
+    ((renderNode env (i + 6) (.comp name kwargs false dyn []) ctx).run.run w).1 =
+        .ok (.marker name w.nextId :: addRootAttrs [idAttr w.nextId] toks) ∧
+      ∃ s', (Djc.SpecRender.sNode env (i + 6) (.comp name kwargs false dyn []) e).run s =
+        .ok (.marker name w.nextId :: addRootAttrs [idAttr w.nextId] toks, s') := by
+  have hl : (false || env.isolated) = false := by rw [hmode]; rfl
+  obtain ⟨h1, s', h2, _⟩ := Djc.Proofs.LeafSpec.leaf_component_model_eq_spec env i name kwargs false dyn ctx ctx
+    w e s d toks st (by rw [hl]; rfl) hr hd hdyn hp ho hsrc hsteps hgcd hext hpar hprov hf1 hf2 hf3 hf4 hc hok he hsid hss hidle
+    (by rw [hl]; exact hc2) (by intro k _; rw [hl]; rfl)
+  exact ⟨h1, s', h2⟩
 
 /-- The property at full strength, as a statement about the two interpreters: whenever neither
 runs out of fuel, the model of the code and the property's reading produce the same tokens up to
